@@ -7,12 +7,15 @@ import sys
 
 pid, name, relf, rule, what, expect = sys.argv[1:7]
 spec = sys.stdin.read()
-old, new = spec.split("\n=====\n")
-new = new.rstrip("\n") if not old.endswith("\n") else new
 src = open(os.path.join("/repo", relf)).read()
-if src.count(old) != 1:
-    sys.exit("pattern occurs %d times in %s" % (src.count(old), relf))
-dst = src.replace(old, new)
+dst = src
+for part in spec.split("\n#####\n"):
+    old, new = part.split("\n=====\n")
+    old = old.strip("\n")
+    new = new.strip("\n")
+    if dst.count(old) != 1:
+        sys.exit("pattern occurs %d times in %s: %r" % (dst.count(old), relf, old[:60]))
+    dst = dst.replace(old, new)
 diff = "".join(difflib.unified_diff(src.splitlines(True), dst.splitlines(True), "a/" + relf, "b/" + relf))
 d = os.path.join(os.path.dirname(os.path.dirname(os.path.abspath(__file__))), "engine", "witnesses", pid)
 os.makedirs(d, exist_ok=True)
